@@ -167,15 +167,34 @@ def registry(P):
             p1, p2 = _head_args(opt[0][1])[1][0], _head_args(vec[0][1])[1][0]
             if _IDENT.match(p1) and _IDENT.match(p2) and p1 != p2:
                 entries.append((a, opt[0][0], vec[0][0], p1, p2))
-    if len(entries) != 1:
-        raise AnchorMissing("registry entry type (struct of one Option<P> and one Vec<Q>) not identified: %s" % [e[0].path for e in entries])
     r = Registry()
-    r.entry_adt, r.orig_field, r.ext_field, r.orig_param, r.ext_param = entries[0]
-    r.entry = r.entry_adt.path
-    lists = [(a, n) for a in P.adts.values() if a.crate == CRATE and a.kind == "Struct" for n, t in a.field_types().items() if r.entry + "<" in t]
-    if len(lists) != 1:
-        raise AnchorMissing("registry list type (struct storing %s) not identified: %s" % (r.entry, [x[0].path for x in lists]))
-    r.list_adt, r.map_field = lists[0]
+    if len(entries) == 1:
+        r.entry_adt, r.orig_field, r.ext_field, r.orig_param, r.ext_param = entries[0]
+        r.entry = r.entry_adt.path
+        lists = [(a, n) for a in P.adts.values() if a.crate == CRATE and a.kind == "Struct" for n, t in a.field_types().items() if r.entry + "<" in t]
+        if len(lists) != 1:
+            raise AnchorMissing("registry list type (struct storing %s) not identified: %s" % (r.entry, [x[0].path for x in lists]))
+        r.list_adt, r.map_field = lists[0]
+    else:
+        # the per-name entry is not a struct of (Option<P>, Vec<Q>) (e.g. an enum of states): the list is still recognisable by its
+        # interface — a type with a method taking a bare P and returning Result<(), _>, one taking a bare Q, one consuming self into
+        # Result<Vec<..>> — but the clauses about the entry's components (R11-d) have nothing to stand on
+        r.entry_adt = r.entry = r.orig_field = r.ext_field = r.map_field = None
+        found = []
+        for a in P.adts.values():
+            if a.crate != CRATE or a.kind != "Struct":
+                continue
+            ms_ = [f for f in P.fns.values() if f.self_adt == a.path and not f.derived and not f.impl_trait and f.kind == "AssocFn"]
+            sets = [(f, peel_ty(_param_types(f)[1])) for f in ms_ if len(_param_types(f)) == 2 and _param_types(f)[0].startswith("&mut ")
+                    and _IDENT.match(peel_ty(_param_types(f)[1])) and (f.sig_output or "").startswith("core::result::Result<()")]
+            adds = [(f, peel_ty(_param_types(f)[1])) for f in ms_ if len(_param_types(f)) == 2 and _param_types(f)[0].startswith("&mut ")
+                    and _IDENT.match(peel_ty(_param_types(f)[1])) and (f.sig_output or "") == "()"]
+            if len(sets) == 1 and len(adds) == 1 and sets[0][1] != adds[0][1]:
+                found.append((a, sets[0][1], adds[0][1]))
+        if len(found) != 1:
+            raise AnchorMissing("registry not identified (neither an entry struct of one Option<P> and one Vec<Q>, nor a list type by its "
+                                "interface): %s" % [e[0].path for e in entries])
+        r.list_adt, r.orig_param, r.ext_param = found[0]
     r.list = r.list_adt.path
     methods = [f for f in P.fns.values() if f.self_adt == r.list and not f.derived and not f.impl_trait and f.kind == "AssocFn"]
 
@@ -252,9 +271,22 @@ def _route_matches(P, enum):
 
 
 def _r11a_route(P, R):
+    outer = []
     for enum in ("type_system::TypeSystemDefinitionOrExtension", "type_system::TypeDefinition", "type_system::TypeExtension"):
         adt = P.adt("nitrogql_ast::" + enum)
         ms = _route_matches(P, enum)
+        if not ms and outer:
+            nested = set()
+            for _g, m in outer:
+                for arm in m["arms"]:
+                    nested |= {norm(x.get("ctor_of") or x.get("def") or "").split("::")[-1] for x in subnodes(arm["pat"])
+                               if x.get("k") in ("TupleStruct", "Struct", "PatExpr") and norm(x.get("adt") or x.get("pat_adt") or "") == adt.path}
+            if nested:
+                R.holds("R11-a", "floor:matches over " + enum.split("::")[-1], "routed by nested patterns of the outer match")
+                R.check("R11-a", "route:" + enum.split("::")[-1], nested == set(adt.variant_names()), "all %d variants routed explicitly" % len(nested),
+                        "the resolver does not route every %s variant explicitly: %s" % (enum, sorted(set(adt.variant_names()) - nested)), loc=outer[0][0].loc())
+                continue
+        outer = outer or ms
         R.floor("R11-a", "matches over " + enum.split("::")[-1], len(ms), 1)
         for g, m in ms:
             v, catch = arm_variants(m)
@@ -303,15 +335,16 @@ def _r11a_lists(P, R):
                 cn = call_name(n)
                 if cn not in roles or not call_args(n):
                     continue
-                recv = call_args(n)[0]
                 targs = []
-                for k_ in ("t", "ta"):
-                    targs += _head_args(recv.get(k_) or "")[1]
+                for recv in call_args(n):
+                    for k_ in ("t", "ta"):
+                        targs += _head_args(recv.get(k_) or "")[1]
                 kinds = [t for t in targs if t in origs]
                 if kinds:
                     seen.setdefault(kinds[0], set()).add(roles[cn])
-                elif g.self_adt and g.path not in roles and any(_IDENT.match(t) for t in targs):
-                    # the registry sits inside a generic wrapper (`Wrapper<T>`): the wrapper's method takes over the role
+                elif g.path not in roles and g.path != _entry(P).path and any(_IDENT.match(t) or t.startswith("<") for t in targs):
+                    # the registry is handled generically here (a `Wrapper<T>` method, or a generic helper taking the registry of
+                    # any kind): this function takes over the role at its own call sites
                     lifted[g.path] = roles[cn]
         if not lifted:
             break
@@ -409,11 +442,24 @@ def _r11a_output(P, R):
                 up = parent["args"][0]          # Variant(x)
             elif parent.get("k") == "MethodCall" and any(a is n for a in parent["args"]):
                 up = parent["recv"]             # iterator.map(Variant)
+            elif parent.get("k") == "Call" and any(a is n for a in parent["args"]):
+                up = [a for a in parent["args"] if a is not n]   # helper(list, Variant)
             else:
                 continue
             pv = pv or Prov(h)
             a = pv.atoms(up)
             refs = {x[1] for x in a if x[0] in ("def", "call")}
+            # the wrap (or the closure it sits in) is handed to a workspace function as a callback: what it wraps comes from there
+            q, inner = par, n
+            while q >= 0:
+                y = acc[q][0]
+                if y.get("k") in ("Call", "MethodCall") and call_name(y) in P.fns and any(_contains(a_, inner) for a_ in call_args(y)) \
+                        and (acc[q][0] is not parent or parent.get("f") is not n):
+                    cb = [a_ for a_ in call_args(y) if _contains(a_, inner)]
+                    if cb and (cb[0].get("k") == "Closure" or cb[0] is n):
+                        refs.add(call_name(y))
+                        break
+                q = acc[q][1]
             pnames = {x[1] for x in a if x[0] == "param"}
             if pnames and h.path != e.path:
                 # the value arrives through a parameter (e.g. a per-kind `into_definition(self)`): look at what the callers pass
@@ -842,6 +888,9 @@ def r11d(P, R):
     """error shape of the registry (shared with C05: duplicate same-kind definitions are detected here).  Keys name the *role*
     (set_original = registers an original, add_extension = registers an extension, into = consumes the list)."""
     rg = registry(P)
+    if rg.entry is None:
+        raise AnchorMissing("the registry's per-name entry is not a struct of (Option<original>, Vec<extensions>); its error-shape clauses "
+                            "are stated over those two components")
     _guarded(R, "R11-d", "anchor:set_original", _r11d_set, P, R, rg)
     _guarded(R, "R11-d", "anchor:add_extension", _r11d_add, P, R, rg)
     _guarded(R, "R11-d", "anchor:into", _r11d_into, P, R, rg)
